@@ -962,6 +962,13 @@ pub(crate) async fn prepare_request(
 
     let (operation_name, mut operation) = operation.map_err(|err| vec![err])?;
 
+    if request.disable_mutation && operation.node.ty == OperationType::Mutation {
+        return Err(vec![ServerError::new(
+            "Mutations are not allowed for this request.",
+            Some(operation.pos),
+        )]);
+    }
+
     // remove skipped fields
     for fragment in document.fragments.values_mut() {
         remove_skipped_selection(
